@@ -39,10 +39,10 @@ class SimulationAlgorithm3DBase
     std::uniform_real_distribution<double> uiud;     // floating point uniform distribution in [0,1[
     std::vector<int> boundary_conditions;            // see Init arguments
 
-    int Poisson(double lambda)
+    long long Poisson(double lambda)
         {
         if(lambda <= 0) return 0; // std::poisson_distribution requires a positive mean
-        return std::poisson_distribution<int>(lambda)(rng);
+        return std::poisson_distribution<long long>(lambda)(rng); // a mean beyond the range of int never returns with <int>
         }
 
     bool AreNeighbors(int i, int j)
